@@ -6,6 +6,7 @@ import (
 	"context"
 	"encoding/json"
 	"fmt"
+	"io"
 	"net"
 	"net/http"
 	"net/http/httptest"
@@ -268,6 +269,57 @@ func exchange(c *fw.Ctx, ctx context.Context, conn *websocket.Conn, mc *memConn,
 	// peer -> library. The peer keeps its deflate context across messages
 	// unless the response forbids it.
 	snd := &pmd.Sender{NoContextTakeover: peerNoCtx}
+	if agreed != nil {
+		// first, on the still empty window: a message larger than the 32 KiB window, read through Reader with a 64 KiB
+		// buffer (the inflater hands over a whole window's worth at once), then a
+		// short message that repeats part of it
+		conn.SetReadLimit(-1)
+		big := c14Big()
+		for i, msg := range [][]byte{big, append([]byte("again: "), big[80000:80300]...)} {
+			p, err := snd.Compress(msg)
+			if err != nil {
+				c.EngineError("reference sender: " + err.Error())
+				return fails
+			}
+			mc.push(pmd.AppendFrame(nil, pmd.Frame{Fin: true, Opcode: pmd.OpBinary, Rsv1: true, Payload: p, Masked: !libIsClient, MaskKey: [4]byte{0x21, 0x43, 0x65, 0x87}}))
+			var got []byte
+			var rerr error
+			if p := fw.Recover(func() {
+				var r io.Reader
+				_, r, rerr = conn.Reader(ctx)
+				if rerr != nil {
+					return
+				}
+				buf := make([]byte, 65536)
+				for {
+					n, err := r.Read(buf)
+					got = append(got, buf[:n]...)
+					if err == io.EOF {
+						return
+					}
+					if err != nil {
+						rerr = err
+						return
+					}
+				}
+			}); p != "" {
+				fails = append(fails, exchFail{"C14/panic/read", "panic in Reader/Read: " + p})
+				break
+			}
+			if rerr != nil && hangGuard(c, ctx, rerr) {
+				return fails
+			}
+			cl := "C14/exchange/peer-to-library-undecodable/" + role + "/large-message"
+			if rerr != nil || !bytes.Equal(got, msg) {
+				fails = append(fails, exchFail{cl, fmt.Sprintf("large message %d (%d bytes, peer keeps context=%v), read through Reader with a 64 KiB buffer: got %d bytes, err=%v", i+1, len(msg), !peerNoCtx, len(got), rerr)})
+				break
+			}
+			c.OutcomeStr(fmt.Sprintf("p2l-big|%s|%v|%d", role, peerNoCtx, i))
+		}
+	}
+	if len(fails) > 0 {
+		return fails
+	}
 	for i, msg := range c14Msgs {
 		f := pmd.Frame{Fin: true, Opcode: pmd.OpText, Payload: msg, Masked: !libIsClient, MaskKey: [4]byte{0x12, 0x34 + byte(i), 0x56, 0x78}}
 		if agreed != nil {
@@ -310,6 +362,22 @@ func exchange(c *fw.Ctx, ctx context.Context, conn *websocket.Conn, mc *memConn,
 		c.OutcomeStr(fmt.Sprintf("p2l|%s|%v|%v|%d", role, agreed != nil, peerNoCtx, i))
 	}
 	return fails
+}
+
+var c14BigMsg []byte
+
+// c14Big: 100000 bytes (the inflater's 32 KiB buffer wraps three times, so at least one chunk is a whole window) of text that compresses but does not repeat at short range.
+func c14Big() []byte {
+	if c14BigMsg == nil {
+		x := uint32(987654321)
+		var b bytes.Buffer
+		for b.Len() < 100000 {
+			x = x*1664525 + 1013904223
+			fmt.Fprintf(&b, "%x-%s ", x>>8, []string{"north", "south", "east", "west"}[x>>30])
+		}
+		c14BigMsg = b.Bytes()[:100000]
+	}
+	return c14BigMsg
 }
 
 // ---------------------------------------------------------------- server side
